@@ -101,7 +101,12 @@ impl E2Run for Dns {
             for (n, ip) in &recs {
                 r2.lock().unwrap().insert(n.clone(), *ip);
             }
-            let n_clients = 1 + sim::choose(6) as usize;
+            // stampede: many clients, each opening with several lookups at the same instant
+            let stampede = sim::chance(1, 10);
+            if stampede {
+                sim::count("probe_stampede_of_simultaneous_first_lookups");
+            }
+            let n_clients = if stampede { 5 + sim::choose(6) as usize } else { 1 + sim::choose(6) as usize };
             // scripts: sequential lookups per client, repeats welcome
             // a script is a list of rounds; the lookups of a round (distinct names) are in
             // flight at the same time, rounds follow one another (repeats hit the cache)
@@ -111,8 +116,8 @@ impl E2Run for Dns {
                 let k = 1 + sim::choose(6) as usize;
                 let mut seen: Vec<String> = vec![];
                 let mut s = vec![];
-                for _ in 0..k {
-                    let width = if sim::chance(1, 3) { 1 + sim::choose(3) as usize } else { 1 };
+                for round_no in 0..k {
+                    let width = if stampede && round_no == 0 { 4 } else if sim::chance(1, 3) { 1 + sim::choose(3) as usize } else { 1 };
                     let mut round: Vec<String> = vec![];
                     for _ in 0..width {
                         let name = recs[sim::choose(recs.len() as u64) as usize].0.clone();
@@ -129,7 +134,7 @@ impl E2Run for Dns {
                     if round.len() > 1 {
                         sim::count("probe_overlapping_lookups_on_one_client");
                     }
-                    let gap = sim::choose(3) * sim::choose(100);
+                    let gap = if stampede && round_no == 0 { 0 } else { sim::choose(3) * sim::choose(100) };
                     s.push((round, gap));
                 }
                 scripts.push(s);
